@@ -19,7 +19,7 @@ mkdir -p /tmp/ggv_mx_$$; cp /verif/known_findings.json /tmp/ggv_mx_$$/
 export -f run_one; export props
 for f in "$@"; do f=$(realpath "$f")
   if [ -d "$f" ]; then n=$(basename $f); run_one $f/patch.diff $n & else n=$(basename $f .patch); run_one $f $n & fi
-  while [ $(jobs -r | wc -l) -ge 8 ]; do sleep 0.2; done
+  while [ $(jobs -r | wc -l) -ge 12 ]; do sleep 0.2; done
 done
 wait
 rm -rf /tmp/ggv_mx_$$
